@@ -175,8 +175,12 @@ class WebSession(object):
                 # credentials or cookies must not follow to another host.
                 request.fields.pop('Host', None)
 
-                if request.url_info.hostname_with_port != \
-                        self._original_request.url_info.hostname_with_port:
+                if (request.url_info.scheme,
+                        request.url_info.hostname_with_port) != \
+                        (self._original_request.url_info.scheme,
+                         self._original_request.url_info.hostname_with_port):
+                    # hostname_with_port leaves default ports out: without
+                    # the scheme https://h/ and http://h/ would look alike
                     request.fields.pop('Authorization', None)
                     request.fields.pop('Cookie', None)
             else:
